@@ -560,11 +560,12 @@ def _rank(rows):
 
 
 def _terminating(q, digits=12):
-    """q has a decimal expansion of at most `digits` significant digits"""
+    """q is a dyadic rational with a decimal expansion of at most `digits` significant digits: only those are
+    computed exactly by the floating-point elimination inside solve (0.6 = 3/5 terminates in decimal but not in
+    binary; solve printing 0.600000000000001 for it is rounding, judged with the 1e-9 allowance)"""
     d = q.denominator
-    for p in (2, 5):
-        while d % p == 0:
-            d //= p
+    while d % 2 == 0:
+        d //= 2
     if d != 1:
         return False
     s = abs(q.numerator) * 10 ** 40 // q.denominator if q else 0
